@@ -74,7 +74,9 @@ def connect_signature(specs, links, order, lo):
     sig = dict(outcome=list(out[:2]) if out[0] != "exc" else [out[0], out[1]])
     if out[0] == "ok":
         sig["data"] = {n + "." + i: None if c.connector.in_data.get(i) is None else round(float(c.connector.in_data[i].magnitude.ravel()[0]), 9) for n, c in sorted(comps.items()) for i, _m in c.ins}
-        sig["infos"] = {n + "." + i: (str(c.inputs[i].info.grid), str(c.inputs[i].info.units), str(c.inputs[i].info.time)) for n, c in sorted(comps.items()) for i, _m in c.ins}
+        meta = lambda info: sorted((k, str(v)) for k, v in info.meta.items())  # noqa
+        sig["infos"] = {n + "." + i: (str(c.inputs[i].info.grid), str(c.inputs[i].info.units), str(c.inputs[i].info.time), meta(c.inputs[i].info)) for n, c in sorted(comps.items()) for i, _m in c.ins}
+        sig["out_infos"] = {n + "." + o[0]: (str(c.outputs[o[0]].info.grid), str(c.outputs[o[0]].info.time), meta(c.outputs[o[0]].info)) for n, c in sorted(comps.items()) for o in c.outs}
         sig["pubs"] = {n + "." + o[0]: sorted(str(t) for t, _ in c.outputs[o[0]].data) for n, c in sorted(comps.items()) for o in c.outs}
     return sig
 
@@ -229,6 +231,12 @@ def cases(tier):
                 cs.append(with_steps(F.line3(c1, c2, end=8), st))
                 cs.append(with_steps(F.join3(c1, c2, end=8), st))
                 cs.append(with_steps(F.fan3(c1, c2, end=8), st))
+    if q:  # a producer that has run ahead of one consumer's request (NextTime / PreviousTime pick by position in the buffer)
+        for c1 in ([F.TOK["N"]], [F.TOK["V"]], [F.TOK["T"]]):
+            for c2 in ([], [F.TOK["L"]]):
+                for st in steplists3[:4]:
+                    cs.append(with_steps(F.fan3(c1, c2, end=8), st))
+                    cs.append(with_steps(F.fan3(c2, c1, end=8), st))
     # fan-out behind a no-branch adapter: rejected by validation, for every order alike
     for st in steplists3[:2]:
         cs.append(with_steps(F.fan3trunk([F.TOK["L"]], [], [], end=8), st))
@@ -300,6 +308,7 @@ def run(tier, seed, agg):
 
     shapes = list(c06.two_slot_shapes()) + list(c06.stuck_plus_arg_shapes()) + list(c06.trunk_shapes()) + list(c06.single_slot_shapes(3, lambda n: [(0, 0, 0)], max_ext=0 if tier == "quick" else 1))
     shapes += list(c06.staged_shapes())
+    shapes += list(c06.tagged_shapes())
     for r in pmap(run_connect_case, [dict(shapes=shapes[i : i + 25]) for i in range(0, len(shapes), 25)]):
         agg.add(r)
     return dict(
